@@ -4,6 +4,7 @@ import (
 	"go/ast"
 	"go/token"
 	"go/types"
+	"sort"
 	"strings"
 
 	"verif/checker/fw"
@@ -23,6 +24,8 @@ func init() {
 			"ExecutionEngine.Execute reaches planning only through the success edges of normalization (when needed), then of ValidateForSchema (err == nil ∧ Valid), and reaches the resolver only when planning reported no error; ValidateForSchema validates with DefaultOperationValidator and the validator reports Invalid whenever the report has errors. " +
 			"It does not decide accept ⇔ spec-valid for all documents (that is the rules' own logic).",
 		Mutants: []Mutant{
+			{Name: "required arguments are enforced on fields only (reverts the F70 fix)", File: "v2/pkg/astvalidation/operation_rule_required_arguments.go", Rule: "C04-R13", Key: "RequiredArguments/covers:Directive",
+				Old: "func (r *requiredArgumentsVisitor) EnterDirective(ref int) {", New: "func (r *requiredArgumentsVisitor) enterDirective(ref int) {"},
 			{Name: "the subscription root rule does not look into inline fragments (reverts part of the F69 fix)", File: "v2/pkg/astvalidation/operation_rule_subscription_single_root_field.go", Rule: "C04-R12", Key: "subscription-root-fields/every-selection-kind",
 				Old: "\t\tcase ast.SelectionKindInlineFragment:\n\t\t\tif !operation.InlineFragments[selection.Ref].HasSelections {\n\t\t\t\tcontinue\n\t\t\t}\n\t\t\tnestedFields, nestedIntrospection := s.rootFields(operation, operation.InlineFragments[selection.Ref].SelectionSet, depth+1)\n\t\t\tfields += nestedFields\n\t\t\tintrospection = introspection || nestedIntrospection\n", New: ""},
 			{Name: "a lone introspection field is accepted as subscription root (reverts part of the F69 fix)", File: "v2/pkg/astvalidation/operation_rule_subscription_single_root_field.go", Rule: "C04-R12", Key: "subscription-root-fields/introspection-tested",
@@ -76,6 +79,7 @@ func runC04(r *fw.Run) {
 	defer c04CountedMatchingIsOneToOne(r)
 	defer c04UnorderedElementsPairedByName(r)
 	defer c04SubscriptionRootFieldsSeenThroughFragments(r)
+	defer c04RequiredArgumentsCoverEveryArgumentBearer(r)
 	p := r.Prog
 	pk := p.Pkg("astvalidation")
 	if pk == nil {
@@ -920,4 +924,54 @@ func c04SubscriptionRootFieldsSeenThroughFragments(r *fw.Run) {
 		"the root fields of a subscription are counted without looking at selections of kind ["+strings.Join(missing, ",")+"] (or without descending): `subscription { ... @d { s1 s2 } }` — an inline fragment with a directive is not flattened by normalization — is admitted with two root fields")
 	r.Check(prefix, "C04-R12", "subscription-root-fields/introspection-tested", p.Pos(ctor.Decl.Pos()), "the visitor of SubscriptionSingleRootField tests root field names for the introspection prefix",
 		"no root field name is tested for the prefix __: `subscription { __typename }` is admitted although the single root field of a subscription must not be an introspection field")
+}
+
+// c04RequiredArgumentsCoverEveryArgumentBearer (R13): "required arguments are provided" holds for everything that takes
+// arguments. Which nodes do is read from the walker: the kinds P whose walk<P> calls walkArgument (fields and directives).
+// The visitor that the rule constructor RequiredArguments registers implements Enter<P> for each of them (that every
+// implemented callback is also registered is C04-R2's business).
+func c04RequiredArgumentsCoverEveryArgumentBearer(r *fw.Run) {
+	p := r.Prog
+	r.Rule("C04-R13", "the visitor of the RequiredArguments rule has an Enter callback for every node kind under which the walker visits arguments (read from the walker: walk<P> calls walkArgument)")
+	var bearers []string
+	for _, fi := range p.Funcs("astvisitor") {
+		if fi.Decl.Recv == nil || !strings.HasPrefix(fi.Name(), "Walker.walk") {
+			continue
+		}
+		info := fi.Info()
+		calls := false
+		fw.WalkAll(fi.Decl.Body, func(nd ast.Node) bool {
+			if c, ok := nd.(*ast.CallExpr); ok {
+				if callee := p.FuncOf(fw.Callee(info, c)); callee != nil && callee.Name() == "Walker.walkArgument" {
+					calls = true
+				}
+			}
+			return true
+		})
+		if calls {
+			bearers = append(bearers, strings.TrimPrefix(fi.Name(), "Walker.walk"))
+		}
+	}
+	sort.Strings(bearers)
+	ctor := p.Func("astvalidation", "RequiredArguments")
+	if ctor == nil {
+		r.Error("C04-R13: rule constructor RequiredArguments not found")
+		return
+	}
+	cinfo := ctor.Info()
+	var vt string
+	fw.WalkAll(ctor.Decl.Body, func(nd ast.Node) bool {
+		if cl, ok := nd.(*ast.CompositeLit); ok {
+			if n, isNamed := cinfo.TypeOf(cl).(*types.Named); isNamed && n.Obj().Pkg() == ctor.Obj.Pkg() {
+				vt = n.Obj().Name()
+			}
+		}
+		return true
+	})
+	for _, b := range bearers {
+		m := p.Func("astvalidation", vt+".Enter"+b)
+		r.Check(m != nil, "C04-R13", "RequiredArguments/covers:"+b, p.Pos(ctor.Decl.Pos()), "the RequiredArguments visitor ("+vt+") enters "+b+" nodes, which take arguments",
+			"the walker visits arguments below "+b+" nodes, but "+vt+" has no Enter"+b+": a "+strings.ToLower(b)+" is admitted without the arguments its definition requires (`{ dog @skip { name } }`, `@dreq` with `directive @dreq(x: Int!) on FIELD`)")
+	}
+	r.Expect("C04-R13", "node kinds that take arguments (from the walker)", len(bearers), 2)
 }
